@@ -6,6 +6,9 @@ CHECKS = {
  "C10": dict(cat="model_checking", tech="TLA+ GoMap.tla: TLC bounded model check + TLC trace validation of recorded script/host/native-Go map histories",
    text="GoMap.tla (incarnation-based range bookkeeping) is model-checked exhaustively for 3 keys; every history run through goatlang script syntax and the host Value API is recorded as an event trace and accepted or rejected by TLC against the same actions; native Go maps calibrate the spec.",
    note="trusts TLC and the finite key/value index mapping; histories are exhaustive only for <=3-4 symbols on 2 keys, sampled beyond; NaN keys excluded by the property", ref="6/C10"),
+ "C03": dict(cat="exploration", tech="TLA+ Pipeline.tla: TLC model check (safety+liveness) + TLC classification of observed call outcomes from bounded-exhaustive token strings, mutation and raw fuzzing",
+   text="Pipeline.tla states the outcome protocol (every call returns; errors carry the failing stage's prefix; no panic/hang state). Every real Eval/Load/Call/Func call over bounded-exhaustive token strings (len<=3 quick, <=4 thorough, 60-token alphabet), token mutations/truncations of the repository's test inputs and seed programs, raw bytes, file trees incl. all import graphs on <=3 packages, and wrong-arity calls is observed with recover+watchdog and its (entry, options, outcome, prefix) class validated by TLC.",
+   note="'all byte strings' is small-scope enumerated and sampled, not proved; hangs are detected by a 3 s watchdog; non-terminating scripts are cut by the verif instruction budget", ref="6/C03"),
 }
 NOT_YET = {}
 def main():
